@@ -1,10 +1,80 @@
 package rules
 
-import "fmt"
+import (
+	"fmt"
+	"os"
+	"sort"
+	"strconv"
+	"time"
+
+	"verif/tool/absint"
+)
 
 // Debug runs ad-hoc dumps used while developing rules.
 func Debug(ctx *Ctx, what string) {
 	switch what {
+	case "cell":
+		rel := cpuRels[0]
+		if os.Getenv("ALT") != "" {
+			rel = cpuRels[1]
+		}
+		m := newCPUModel(ctx, rel)
+		fmt.Println("model err:", m.Err, "intr:", m.IntrVals, "none:", m.IntrNone)
+		op, _ := strconv.ParseInt(os.Getenv("OP"), 16, 32)
+		mm, _ := strconv.Atoi(os.Getenv("M"))
+		xx, _ := strconv.Atoi(os.Getenv("X"))
+		ee, _ := strconv.Atoi(os.Getenv("E"))
+		in, _ := strconv.Atoi(os.Getenv("INTR"))
+		cell := CPUCell{Opcode: int(op), M: mm, X: xx, E: ee, Intr: m.IntrNone, Stopped: -1, Op1: -1, DLZero: -1}
+		if in > 0 {
+			cell.Intr, cell.IntrIdx = m.IntrVals[in-1], in
+		}
+		r := m.Run(cell)
+		fmt.Println("cell", cell, "returned", r.Returned, "ret", absint.ValKey(r.Ret), "steps", r.Steps, "dispatched", r.Dispatched)
+		fmt.Println("imprec:", r.Imprec)
+		for _, a := range r.Accesses {
+			k := "R"
+			if a.Write {
+				k = "W"
+			}
+			fmt.Printf("  %s addr=%s idx=%s data=%s ib=%d %s\n", k, a.Addr, a.Index, a.Data, a.IByte, shortStack(a.Stack))
+		}
+		for _, e := range r.Events {
+			if e.Kind != "slot-call" {
+				fmt.Printf("  ev %s %s %s\n", e.Kind, e.Callee, shortStack(e.Stack))
+			}
+		}
+		var ns []string
+		for n := range r.Final {
+			ns = append(ns, n)
+		}
+		sort.Strings(ns)
+		for _, n := range ns {
+			if absint.ValKey(r.Final[n]) != absint.ValKey(r.Entry[n]) {
+				fmt.Printf("  %s: %s -> %s\n", n, absint.ValKey(r.Entry[n]), fmtVal(r.Final[n]))
+			}
+		}
+		fmt.Println("  at dispatch stepPC =", fmtVal(r.AtDispatch["stepPC"]), "Cycles =", fmtVal(r.AtDispatch["Cycles"]))
+	case "cells":
+		for _, rel := range cpuRels {
+			m := newCPUModel(ctx, rel)
+			t0 := time.Now()
+			rs := m.RunAll(m.Cells(true))
+			steps, imp, noret := 0, 0, 0
+			for _, r := range rs {
+				steps += r.Steps
+				if len(r.Imprec) > 0 {
+					imp++
+					if imp < 5 {
+						fmt.Println("  imprecise", r.Cell, r.Imprec[0])
+					}
+				}
+				if !r.Returned {
+					noret++
+				}
+			}
+			fmt.Println(rel, len(rs), "cells", steps, "steps", imp, "imprecise", noret, "no-return", time.Since(t0))
+		}
 	case "tables":
 		for _, rel := range cpuRels {
 			w := NewWorld(ctx, rel)
@@ -22,4 +92,11 @@ func Debug(ctx *Ctx, what string) {
 			}
 		}
 	}
+}
+
+func fmtVal(v absint.Val) string {
+	if i, ok := v.(*absint.Int); ok {
+		return i.String()
+	}
+	return absint.ValKey(v)
 }
